@@ -46,19 +46,21 @@ def bgpStream (dec : HypDec) (p : Profile) (c : Codec) : Bytes â†’ List Bytes â†
 inductive RRec where
   | pdu (n rem : Nat) (m : RtrMsg)
   | more (rem : Nat)
+  | err (n rem : Nat)
   | panic
   | stall
   deriving DecidableEq, Repr
 
 def rtrDrain (buf : Bytes) : List RRec Ã— Option Bytes :=
   match rtrDecode buf with
-  | .ok none => ([.more buf.length], some buf)
-  | .ok (some (m, n)) =>
+  | .more => ([.more buf.length], some buf)
+  | .err => ([.err 0 buf.length], none)
+  | .panic => ([.panic], none)
+  | .pdu m n =>
       if 0 < n âˆ§ n â‰¤ buf.length then
         let r := rtrDrain (buf.drop n)
         (.pdu n (buf.length - n) m :: r.1, r.2)
       else ([.pdu n (buf.length - n) m, .stall], none)
-  | _ => ([.panic], none)
 termination_by buf.length
 decreasing_by simp only [List.length_drop]; omega
 
